@@ -488,22 +488,24 @@ static const char *encname(const struct encoder *e)
 	return "none";
 }
 
-static void digest(void)
+/* every field of users[u] the session machine reads; `all` = also for an inactive slot (op `main`: the state tunnel() is entered with),
+ * then preceded by active / disabled / id / tun_ip, and with the encoder of a never-used slot (NULL until the first V request) printed as `-` */
+static void slot_digest(int u, int all)
 {
-	int u, i, first = 1;
+	int i;
 	char b[512];
-	ev_str("st");
-	for (u = 0; u < (int) usercount; u++) {
+	{
 		struct tun_user *t = &users[u];
 		unsigned long s;
-		if (!t->active) continue;
-		ev_str(first ? " " : " ; ");
-		first = 0;
+		if (all) {
+			snprintf(b, sizeof(b), "a=%d dis=%d id=%d ip=%08x ", t->active, t->disabled, (int) t->id, (unsigned) ntohl(t->tun_ip));
+			ev_str(b);
+		}
 		snprintf(b, sizeof(b), "u=%d au=%d ar=%d ol=%d lp=%ld seed=%d host=", u, t->authenticated, t->authenticated_raw,
 			 t->options_locked, (long) t->last_pkt, t->seed);
 		ev_str(b);
 		if (t->hostlen) ev_addr((struct sockaddr *) &t->host, t->hostlen); else ev_str("none");
-		snprintf(b, sizeof(b), " conn=%d lazy=%d fs=%d enc=%s dn=%c", (int) t->conn, t->lazy, t->fragsize, encname(t->encoder),
+		snprintf(b, sizeof(b), " conn=%d lazy=%d fs=%d enc=%s dn=%c", (int) t->conn, t->lazy, t->fragsize, all && !t->encoder ? "-" : encname(t->encoder),
 			 t->downenc ? t->downenc : '0');
 		ev_str(b);
 		snprintf(b, sizeof(b), " q=%u/%u/%u/%u qs=%u/%u/%u/%u/%d", (unsigned) t->q.id, (unsigned) t->q.id2, (unsigned) t->q.type,
@@ -546,6 +548,18 @@ static void digest(void)
 				s += t->qmemdata_type[i] + t->qmemdata_cmc[4 * i] + t->qmemdata_cmc[4 * i + 1] + t->qmemdata_cmc[4 * i + 2] + t->qmemdata_cmc[4 * i + 3];
 		snprintf(b, sizeof(b), " md=%d/%lu", t->qmemdata_lastfilled, s);
 		ev_str(b);
+	}
+}
+
+static void digest(void)
+{
+	int u, first = 1;
+	ev_str("st");
+	for (u = 0; u < (int) usercount; u++) {
+		if (!users[u].active) continue;
+		ev_str(first ? " " : " ; ");
+		first = 0;
+		slot_digest(u, 0);
 	}
 }
 
@@ -919,6 +933,12 @@ static void op_main(char **tok, int ntok)
 	mm_tag = mm_ftag = NULL;
 	mm_getopt_err = 0;
 	mm_lastq_len = 0;
+	{	/* a stale entry in the forward ring: fw_query_init() in main() must remove it */
+		struct fw_query stale;
+		memset(&stale, 0, sizeof(stale));
+		stale.id = 7;
+		fw_query_put(&stale);
+	}
 	mm = 1;
 	exited = 0;
 	if (!setjmp(mm_jb)) rv = iodined_main(argc, args);
@@ -938,6 +958,21 @@ static void op_main(char **tok, int ntok)
 		       my_mtu, check_ip, (unsigned) ntohl(ns_ip), bind_port, debug, created_users);
 		for (i = 0; i < created_users; i++) printf("%s%08x", i ? "," : "", (unsigned) ntohl(users[i].tun_ip));
 		if (created_users <= 0) printf("-");
+		/* the whole of users[] as tunnel() finds it (the model: Server.start) */
+		evlen = 0; nevents = 0;
+		for (i = 0; i < (int) usercount; i++) {
+			ev_str(i ? " ; " : " | sl ");
+			slot_digest(i, 1);
+		}
+		ev_str("");
+		{
+			struct fw_query *q7, *q0;
+			fw_query_get(7, &q7);
+			fw_query_get(0, &q0);
+			printf(" fw=%s", !q7 && q0 && q0->addrlen == 0 ? "clean" : "dirty");
+		}
+		printf(" uc=%u%s", usercount, evlen ? evbuf : "");
+		evlen = 0; nevents = 0;
 	}
 	putchar('\n');
 	for (i = 0; i < argc; i++) free(keep[i]);
